@@ -85,7 +85,8 @@ Fixpoint drop_blank (s : str) : str :=
   | c :: r => if is_blank c then drop_blank r else s
   end.
 (* substr(start, end - start + 1) with end = find_last_not_of(blanks) *)
-Definition trim (s : str) : str := rev (drop_blank (rev (drop_blank s))).
+(* (List.rev_append: reversal in linear time, the model is run on lines of up to 1 MB) *)
+Definition trim (s : str) : str := rev_append (drop_blank (rev_append (drop_blank s) [])) [].
 
 (* StringSplit(input, &tokens, delim) for a one-character delimiter set: always >= 1 token *)
 Fixpoint string_split (d : N) (s : str) : list str :=
